@@ -34,7 +34,7 @@ def _raise_op_timeout(signum, frame):
 
 TS = ["1/2", "1/3", "2/3", "1/4", "3/4", "1/5", "5/8"]
 MAXWORLD = 6
-PROFILES = ["frac", "frac", "vec", "fvec", "fvec", "ffloat", "ivec", "sim-full", "sim-minimal", "sim-nofloat", "sim-bounded", "sim-inplace", "sim-floatable"]
+PROFILES = ["frac", "frac", "vec", "fvec", "fvec", "ffloat", "zarr", "ivec", "sim-full", "sim-minimal", "sim-nofloat", "sim-bounded", "sim-inplace", "sim-floatable"]
 MUTATORS = ["knot_insert", "knot_remove", "degree_increase", "degree_decrease", "knot_clean", "degree_clean", "clean",
             "set_ctrlpoints", "set_weights", "set_knotvector", "set_knotvector", "set_degree", "update", "fit_curve", "fit_points",
             "fit_function", "apply"]
@@ -70,7 +70,7 @@ def gen_plan(prop, seed, tier):
     rng = random.Random(seed)
     cls = rng.choice(["frac", "frac", "float"])
     profile = rng.choice(PROFILES)
-    if profile in ("fvec", "ffloat"):
+    if profile in ("fvec", "ffloat", "zarr"):
         cls = "float"
     cfg = {"cls": cls, "profile": profile, "fault_rate": rng.choice([0.0, 0.2, 0.4, 0.55]),
            "wfloat": rng.random() < 0.5}
@@ -148,6 +148,8 @@ class CurveEngine:
             return int(v) if v.denominator == 1 else v
         if prof == "ffloat":
             return float(c[0])
+        if prof == "zarr":
+            return self.np.array(float(c[0]))       # a 0-dimensional (mutable) ndarray used as a scalar control point
         if prof == "vec":
             return self.np.array([Fraction(x) for x in c], dtype=object)
         if prof == "fvec":
@@ -448,6 +450,16 @@ class CurveEngine:
         # I1 on the receiver and on everything returned
         if ridx is not None and (post[ridx] != pre[ridx] or exc is None):
             self.check_consistent(ctx, receiver, "after-" + label)
+        if exc is None and kind == "copy" and isinstance(result, self.Curve) and a.ctrlpoints is not None:
+            # "copies are independent of the original": a mutable control-point object (custom class, ndarray) must not
+            # be the very same object in the copy, otherwise changing the copy's point in place changes the original
+            ctx.oracle("copy-independent")
+            for pc, po in zip(result.ctrlpoints or (), a.ctrlpoints):
+                if pc is po and isinstance(po, (SimPoint, self.np.ndarray)):
+                    ctx.fail("copy-shares-state", label, "%s returned a curve whose control point is the SAME %s object as the original's"
+                             % (label, type(po).__name__))
+            if result.knotvector is a.knotvector:
+                ctx.fail("copy-shares-state", label, "%s returned a curve holding the SAME KnotVector object as the original" % label)
         if exc is None and receiver is None:
             outs = result if isinstance(result, (tuple, list)) else (result,)
             for r in outs:
